@@ -6,6 +6,7 @@ import (
 	"sort"
 
 	"verifcheck/internal/core"
+	"verifcheck/internal/ssaq"
 )
 
 // Ctx is what a property's rules see.
@@ -34,4 +35,15 @@ func Properties() []string {
 	}
 	sort.Strings(out)
 	return out
+}
+
+// Forget drops every per-program cache for p.
+func Forget(p *core.Prog) {
+	lockMu.Lock()
+	delete(lockCache, p)
+	lockMu.Unlock()
+	linMu.Lock()
+	delete(linCache, p)
+	linMu.Unlock()
+	ssaq.Forget(p)
 }
